@@ -88,6 +88,9 @@ theorem Repr.wf {b : RawVec α} {xs : List α} (h : Repr b xs) : b.WF = true := 
 
 theorem Repr.ofList (xs : List α) : Repr (RawVec.ofList xs) xs := ⟨_, rfl, rfl⟩
 
+/-- `VecBuilder::cap_only(n)` — `n = 0` included — is an empty list -/
+theorem Repr.capOnly (n : Nat) : Repr (RawVec.capOnly n : RawVec α) [] := ⟨_, rfl, rfl⟩
+
 theorem ofList_cap (xs : List α) : 1 ≤ (RawVec.ofList xs).cap := by
   simp [RawVec.ofList, RawVec.cap]; omega
 
@@ -106,9 +109,9 @@ theorem Repr.ensure {b : RawVec α} {xs : List α} (h : Repr b xs) (n : Nat) : R
   · exact h.grow _
   · exact h
 
-/-- with a capacity of at least one, `ensure_capacity(len + 1)` really makes room (doubling suffices) -/
-theorem ensure_cap {b : RawVec α} {xs : List α} (h : Repr b xs) (hc : 1 ≤ b.cap) :
-    b.len + 1 ≤ (b.ensureCapacity (b.len + 1)).cap ∧ 1 ≤ (b.ensureCapacity (b.len + 1)).cap := by
+/-- `ensure_capacity(len + 1)` really makes room — for every capacity, 0 included (`max (cap * 2) needed`) -/
+theorem ensure_cap {b : RawVec α} {xs : List α} (h : Repr b xs) :
+    b.len + 1 ≤ (b.ensureCapacity (b.len + 1)).cap := by
   have hle := h.cap
   have hl := h.len
   unfold RawVec.ensureCapacity; split
@@ -117,25 +120,24 @@ theorem ensure_cap {b : RawVec α} {xs : List α} (h : Repr b xs) (hc : 1 ≤ b.
     omega
   · omega
 
-/-- **push** -/
-theorem push_repr {b : RawVec α} {xs : List α} (h : Repr b xs) (hc : 1 ≤ b.cap) (v : α) :
-    ∃ b', b.push v = .done b' ∧ Repr b' (xs ++ [v]) ∧ 1 ≤ b'.cap := by
+/-- **push**: never writes outside the allocation -/
+theorem push_repr {b : RawVec α} {xs : List α} (h : Repr b xs) (v : α) :
+    ∃ b', b.push v = .done b' ∧ Repr b' (xs ++ [v]) := by
   have he := h.ensure (b.len + 1)
-  have hcap := ensure_cap h hc
+  have hcap := ensure_cap h
   obtain ⟨rest, hs, hl⟩ := he
   have hl0 := h.len
   simp only [RawVec.push]
   have hlt : b.len < (b.ensureCapacity (b.len + 1)).cap := by omega
   simp only [hlt, if_true]
-  refine ⟨_, rfl, ?_, ?_⟩
-  · cases rest with
-    | nil => simp [RawVec.cap, hs] at hlt; omega
-    | cons r rest' =>
-      refine ⟨rest', ?_, by simp [hl0]⟩
-      show (b.ensureCapacity (b.len + 1)).slots.set b.len (some v) = _
-      rw [hs, set_append_at _ _ _ _ _ (by simp [hl0])]
-      simp
-  · simp [RawVec.cap] at hcap ⊢; omega
+  refine ⟨_, rfl, ?_⟩
+  cases rest with
+  | nil => simp [RawVec.cap, hs] at hlt; omega
+  | cons r rest' =>
+    refine ⟨rest', ?_, by simp [hl0]⟩
+    show (b.ensureCapacity (b.len + 1)).slots.set b.len (some v) = _
+    rw [hs, set_append_at _ _ _ _ _ (by simp [hl0])]
+    simp
 
 /-- **pop** -/
 theorem pop_repr {b : RawVec α} {xs : List α} (h : Repr b xs) :
@@ -151,37 +153,32 @@ theorem pop_repr {b : RawVec α} {xs : List α} (h : Repr b xs) :
     · simpa using hs
     · simp at hl; simp [hl]
 
-/-- **insert** inside the bounds -/
-theorem insert_repr {b : RawVec α} {xs : List α} (h : Repr b xs) (hc : 1 ≤ b.cap) (idx : Nat) (v : α)
+/-- **insert** inside the bounds: never writes outside the allocation -/
+theorem insert_repr {b : RawVec α} {xs : List α} (h : Repr b xs) (idx : Nat) (v : α)
     (hi : idx ≤ xs.length) :
-    ∃ b', b.insert idx v = some (.done b') ∧ Repr b' (xs.insertIdx idx v) ∧ 1 ≤ b'.cap := by
+    ∃ b', b.insert idx v = some (.done b') ∧ Repr b' (xs.insertIdx idx v) := by
   have he := h.ensure (b.len + 1)
-  have hcap := ensure_cap h hc
+  have hcap := ensure_cap h
   obtain ⟨rest, hs, hl⟩ := he
   have hl0 := h.len
   have hlt : b.len < (b.ensureCapacity (b.len + 1)).cap := by omega
   have hgt : ¬ idx > b.len := by omega
   simp only [RawVec.insert, hgt, hlt, if_true, if_false]
-  refine ⟨_, rfl, ?_, ?_⟩
-  · cases rest with
-    | nil => simp [RawVec.cap, hs] at hlt; omega
-    | cons r rest' =>
-      have hsplit : xs.map some = (xs.take idx).map some ++ (xs.drop idx).map some := by
-        rw [← List.map_append, List.take_append_drop]
-      have hA : ((xs.take idx).map some).length = idx := by simp; omega
-      have hB : ((xs.drop idx).map some).length = b.len - idx := by simp; omega
-      obtain ⟨x, hx⟩ := ptrCopy_up ((xs.take idx).map some) ((xs.drop idx).map some) rest' r
-      rw [hA, hB] at hx
-      refine ⟨rest', ?_, by simp [List.length_insertIdx, hl0]; omega⟩
-      show ((RawVec.ptrCopy (b.ensureCapacity (b.len + 1)).slots idx (idx + 1) (b.len - idx)).set idx (some v)) = _
-      rw [hs, hsplit, hx]
-      rw [set_append_at _ _ _ _ _ hA, insertIdx_eq xs v idx hi]
-      simp
-  · simp [RawVec.cap] at hcap ⊢
-    have : (RawVec.ptrCopy (b.ensureCapacity (b.len + 1)).slots idx (idx + 1) (b.len - idx)).length
-        = (b.ensureCapacity (b.len + 1)).slots.length := by
-      simp [RawVec.ptrCopy]; omega
-    omega
+  refine ⟨_, rfl, ?_⟩
+  cases rest with
+  | nil => simp [RawVec.cap, hs] at hlt; omega
+  | cons r rest' =>
+    have hsplit : xs.map some = (xs.take idx).map some ++ (xs.drop idx).map some := by
+      rw [← List.map_append, List.take_append_drop]
+    have hA : ((xs.take idx).map some).length = idx := by simp; omega
+    have hB : ((xs.drop idx).map some).length = b.len - idx := by simp; omega
+    obtain ⟨x, hx⟩ := ptrCopy_up ((xs.take idx).map some) ((xs.drop idx).map some) rest' r
+    rw [hA, hB] at hx
+    refine ⟨rest', ?_, by simp [List.length_insertIdx, hl0]; omega⟩
+    show ((RawVec.ptrCopy (b.ensureCapacity (b.len + 1)).slots idx (idx + 1) (b.len - idx)).set idx (some v)) = _
+    rw [hs, hsplit, hx]
+    rw [set_append_at _ _ _ _ _ hA, insertIdx_eq xs v idx hi]
+    simp
 
 theorem insert_oob {b : RawVec α} {xs : List α} (h : Repr b xs) (idx : Nat) (v : α) (hi : xs.length < idx) :
     b.insert idx v = none := by
